@@ -526,5 +526,5 @@ PROPERTIES = {
             "MustNotBreak, nothing under Invalid; (d) a Break decision stores >= 1 newline, Continue stores 0; (e) the last-resort flag (previous token is a single-line comment) is "
             "updated on every path and guards both emission arms; (f) the spacing table forces 0 spaces only next to brackets/generic chevrons, identifiers force a following space, "
             "keywords/comments/directives get one space either side; (g) line-start spaces are removed only after the last wrapping pass; (h) token text changes only through the documented normalisations, each reached only for its own token kinds (set_content callers, dispatch facts, keyword lower-casing of the same token, partition / skip discipline of the re-assemblers); (e) is decided as a decision table of the emission step including the calls made on each path. Not decided: generic-bracket re-typing heuristics, the full operator-pair gluing matrix, the fallback when no "
-            "wrapping is found.", []),
+            "wrapping is found. Added in round 6: (l) the interior lines of a multi-line literal are cut where the lexer's terminators are (shared with C12.e).", []),
 }
